@@ -78,13 +78,14 @@ func ruleTypeCopy(c *Ctx) []Obligation {
 	fTypeYT, fTdYT := FieldVar(typeT, "YangType"), FieldVar(typedefT, "YangType")
 	copies := c.structCopies()
 	for _, site := range []struct {
-		fnName  string
-		field   *types.Var
-		overlay []string
-		what    string
+		fnName   string
+		field    *types.Var
+		overlay  []string
+		what     string
+		required []string
 	}{
-		{"yang.(*Typedef).resolve", fTdYT, specTypedefOverlay, "typedef"},
-		{"yang.(*Type).resolve", fTypeYT, specTypeUseOverlay, "type use"},
+		{"yang.(*Typedef).resolve", fTdYT, specTypedefOverlay, "typedef", []string{"Base", "Default", "HasDefault", "Name", "Units"}},
+		{"yang.(*Type).resolve", fTypeYT, specTypeUseOverlay, "type use", []string{"Base", "Bit", "Enum", "FractionDigits", "Length", "Path", "Pattern", "Range", "Type"}},
 	} {
 		fn := c.Fn(site.fnName)
 		if fn == nil {
@@ -149,6 +150,67 @@ func ruleTypeCopy(c *Ctx) []Obligation {
 				obs = append(obs, ok(R, con2, c.InstrPos(cp.store), "overlays "+strings.Join(gl, ", ")))
 			} else {
 				obs = append(obs, bad(R, con2, c.InstrPos(cp.store), "the derivation step also overwrites "+strings.Join(extra, ", ")+", which should be inherited (nearest definition wins only for the listed attributes)"))
+			}
+			// the attributes the nearest definition must win for are overlaid at all
+			var missing []string
+			for _, f := range site.required {
+				if !got[f] {
+					missing = append(missing, f)
+				}
+			}
+			con3 := fmt.Sprintf("%s: every attribute the statement can restate is overlaid", site.what)
+			if len(missing) == 0 {
+				obs = append(obs, ok(R, con3, c.InstrPos(cp.store), strings.Join(site.required, ", ")))
+			} else {
+				obs = append(obs, bad(R, con3, c.InstrPos(cp.store), "the derivation step never writes "+strings.Join(missing, ", ")+" of the copy: what the statement says about it is ignored and the parent's value (or none) is kept"))
+			}
+			// an attribute taken from an optional substatement is overlaid on the branch where the statement has it
+			for _, r := range *cp.alloc.Referrers() {
+				fa, okf := r.(*ssa.FieldAddr)
+				if !okf {
+					continue
+				}
+				_, f, _ := fieldOf(fa)
+				for _, rr := range *fa.Referrers() {
+					s2, oks := rr.(*ssa.Store)
+					if !oks || s2.Addr != fa {
+						continue
+					}
+					for _, g := range guardsAt(s2.Block()) {
+						// list-valued substatements (enum, bit, …): the test is `the statement has at least one`
+						if bo, isB := g.Cond.(*ssa.BinOp); isB && isLenOf(bo.X) {
+							if _, lf, lbase := loadedField(bo.X.(*ssa.Call).Call.Args[0]); lf != nil && recordedFieldName(lf) == f.Name() && (isParamN(fn, lbase, 0) || isParamN(fn, resolveArg(rootOf(lbase)), 0)) {
+								if k, okk := constInt(bo.Y); okk {
+									op := bo.Op
+									if !g.Branch {
+										op = map[token.Token]token.Token{token.LSS: token.GEQ, token.GTR: token.LEQ, token.LEQ: token.GTR, token.GEQ: token.LSS, token.EQL: token.NEQ, token.NEQ: token.EQL}[op]
+									}
+									con4 := fmt.Sprintf("%s: %s is overlaid where the statement carries it", site.what, f.Name())
+									if k == 0 && (op == token.GTR || op == token.NEQ) || k == 1 && op == token.GEQ {
+										obs = append(obs, ok(R, con4, c.InstrPos(s2), "under `len(statement."+f.Name()+") > 0`"))
+									} else {
+										obs = append(obs, bad(R, con4, c.InstrPos(s2), fmt.Sprintf("the overlay is made under `len(statement.%s) %s %d`, which is not `the statement has at least one`: a statement with a single member keeps the inherited set, or one without members replaces it by an empty set", f.Name(), op, k)))
+									}
+								}
+							}
+							continue
+						}
+						x, isEq, okn := nilTest(g.Cond)
+						if !okn {
+							continue
+						}
+						_, gf, base := loadedField(x)
+						if gf == nil || recordedFieldName(gf) != f.Name() || !(isParamN(fn, base, 0) || isParamN(fn, resolveArg(rootOf(base)), 0)) {
+							continue
+						}
+						con4 := fmt.Sprintf("%s: %s is overlaid where the statement carries it", site.what, f.Name())
+						if isEq != g.Branch {
+							obs = append(obs, ok(R, con4, c.InstrPos(s2), "under `statement."+f.Name()+" != nil`"))
+						} else {
+							obs = append(obs, bad(R, con4, c.InstrPos(s2), "the overlay happens on the branch where the statement does NOT have a "+f.Name()+" substatement: a statement that has one keeps the inherited value, one that has none overwrites it"))
+						}
+					}
+				}
 			}
 		}
 	}
